@@ -239,7 +239,7 @@ class SimplicialComplex(Hypergraph):
         """Helper function to add a face to a simplicial complex, without any
         check, and without attributes. Automatically updates self._edge_uid"""
 
-        idx = next(self._edge_uid)
+        idx = self._new_edge_uid()
         self._edge[idx] = frozenset(members)
 
         for n in members:
@@ -315,7 +315,7 @@ class SimplicialComplex(Hypergraph):
             warn(f"uid {idx} already exists, cannot add simplex {members}")
             return
 
-        idx = next(self._edge_uid) if not idx else idx
+        idx = self._new_edge_uid() if not idx else idx
 
         self._add_simplex(members, idx, **attr)
 
@@ -578,7 +578,7 @@ class SimplicialComplex(Hypergraph):
             # needs to go after the check for existence, otherwise
             # we're skipping ID numbers when edges already exist
             if format1 or format3:
-                idx = next(self._edge_uid)
+                idx = self._new_edge_uid()
 
             if max_order is not None:
                 if len(members) > max_order + 1:
